@@ -419,6 +419,14 @@ public:
       return 0;
     }
 
+    // A non-positive interval would make every re-armed deadline due at once:
+    // collectDueLocked would then spin under _mutex collecting the same timer forever.
+    if (interval.count() <= 0)
+    {
+      handleError(TimerError::InvalidTimeout, "Periodic interval must be positive", 0);
+      return 0;
+    }
+
     auto deadline = Clock::now() + interval;
 
     if (!isValidTimeout(deadline))
